@@ -348,6 +348,13 @@ class Fn:
         cs = [c for c in cs if not c.is_abstract]
         if len(cs) == 1 and how == "repo":
             return cs[0]
+        if not cs and how in ("callable-param", "unresolved", "unknown") and isinstance(call.func, (ast.Attribute, ast.Name)) and hasattr(call.func, "_orig"):
+            # the call was written through a parameter / local (`make(n)`), and the callable has since been substituted
+            # (`_Factory().filter_for(n)`): resolve by what the substituted callable is
+            t = self.type_of(call.func)
+            fns = [m[1] for m in (t[1] if t[0] == "union" else [t]) if m[0] == "fn"]
+            if len(fns) == 1 and not fns[0].is_abstract and not isinstance(fns[0].node, ast.Lambda):
+                return fns[0]
         return None
 
     def callees(self, call: ast.Call) -> tuple[list[FuncInfo], str]:
@@ -437,6 +444,11 @@ class Fn:
         new._orig = getattr(e, "_orig", (self.fi, e))  # type: ignore[attr-defined]
         if isinstance(new, ast.Call) and isinstance(new.func, ast.Lambda):
             r = beta(new.func, new.args, new.keywords)
+            if r is not None:
+                return r
+        if isinstance(new, ast.Call) and isinstance(e, ast.Call) and isinstance(e.func, ast.Name) and isinstance(new.func, ast.Attribute) and depth > 0:
+            # a local that holds a bound method (`make = _Factory().filter_for; make(x)`): the call through the method
+            r = self.summarise(new, use_stmt, depth - 1, keep)
             if r is not None:
                 return r
         if isinstance(new, ast.Call) and isinstance(new.func, ast.Call) and new.func.args and self.lib_name(new.func.func) in ("functools.partial", "partial"):
@@ -697,14 +709,14 @@ class Fn:
         return out
 
 
-def class_view(repo: Repo, fi: FuncInfo, concrete, allow=None, max_depth: int = 4) -> FuncInfo:
+def class_view(repo: Repo, fi: FuncInfo, concrete, allow=None, max_depth: int = 4, inline_ctor=None) -> FuncInfo:
     """Inlined view (core/inline_stmt.py) of method `fi` *as executed on an instance of class `concrete`*: calls on `self` / `cls` /
     `super()` are resolved by the method resolution order of `concrete` instead of by class-hierarchy analysis, so template methods
     (abstract in the base class, overridden or extended in subclasses) are inlined with the implementation that really runs."""
     from core.inline_stmt import Inliner
 
     cache = repo.__dict__.setdefault("_c11_class_views", {})
-    key = (fi.fq, concrete.fq, id(allow), max_depth)
+    key = (fi.fq, concrete.fq, id(allow), max_depth, id(inline_ctor))
     if key in cache:
         return cache[key]
     T = types_of(repo)
@@ -938,12 +950,64 @@ def class_view(repo: Repo, fi: FuncInfo, concrete, allow=None, max_depth: int = 
                 new._src = s._src  # type: ignore[attr-defined]
             return [new]
 
+        # ---- small helper classes that own a part of the pipeline (`self._evaluation = _Evaluation(requirement, evaluable)` whose
+        # constructor does the work): `obj = object.__new__(C); <body of C.__init__ on obj>; target = obj`
+        def _ctor(self, ctx, s, taken, origin, stack):  # noqa: ANN001
+            v = getattr(s, "value", None)
+            if not isinstance(s, (ast.Assign, ast.AnnAssign)) or not isinstance(v, ast.Call) or len(stack) > self.max_depth:
+                return None
+            src = getattr(v, "_src", None)
+            c_ctx, orig = src if src is not None else (ctx, v)
+            if not isinstance(orig, ast.Call):
+                return None
+            try:
+                cs, how = self.T.callees(c_ctx, orig, byname_fallback=False)
+            except Exception:  # noqa: BLE001
+                return None
+            if how != "ctor" or len(cs) != 1 or cs[0].name != "__init__" or cs[0].cls is None or cs[0].fq in stack:
+                return None
+            init = cs[0]
+            ci = init.cls
+            if inline_ctor is None or not inline_ctor(init):
+                return None
+            if ci.bases or ci.is_dataclass or "__new__" in ci.methods or ci in mro or not self._eligible(ctx, init, "expr"):
+                return None
+            if any(isinstance(x, ast.Return) and x.value is not None for x in own_nodes(init.node)):
+                return None
+            new = Inliner._fresh(ci.name.strip("_").lower(), "object", taken)
+            taken.add(new)
+            recv = ast.copy_location(ast.Name(id=new, ctx=ast.Load()), v)
+            call2 = ast.copy_location(ast.Call(func=ast.copy_location(ast.Attribute(value=recv, attr="__init__", ctx=ast.Load()), v), args=v.args, keywords=v.keywords), v)
+            got = Inliner._expand(self, ctx, call2, init, taken, origin, stack)
+            if got is None:
+                taken.discard(new)
+                return None
+            prefix, body = got
+            if prefix:
+                prefix = self._block(ctx, prefix, taken, origin, stack)
+            from core.inline_stmt import single_exit
+
+            body, _t = single_exit(body, lambda ret: [])
+            alloc_call = ast.copy_location(ast.Call(func=ast.copy_location(ast.Attribute(value=ast.copy_location(ast.Name(id="object", ctx=ast.Load()), v), attr="__new__", ctx=ast.Load()), v), args=[v.func], keywords=[]), v)
+            alloc = ast.copy_location(ast.Assign(targets=[ast.copy_location(ast.Name(id=new, ctx=ast.Store()), v)], value=alloc_call), s)
+            s.value = ast.copy_location(ast.Name(id=new, ctx=ast.Load()), v)
+            for st in (alloc,):
+                if hasattr(s, "_src"):
+                    st._src = s._src  # type: ignore[attr-defined]
+            return [alloc, *prefix, *body, s]
+
         def _block(self, ctx, stmts, taken, origin, stack):  # noqa: ANN001
             out = []
             for s0 in stmts:
                 for s in self._split(ctx, s0, stack):
-                    out += self._hoist(ctx, s, taken, stack)
-                    out.append(s)
+                    for s1 in [*self._hoist(ctx, s, taken, stack), s]:
+                        got = self._ctor(ctx, s1, taken, origin, stack)
+                        if got is not None:
+                            for x in got:
+                                x._c11_ctor_done = True  # type: ignore[attr-defined]
+                            out += got
+                        else:
+                            out.append(s1)
             done = Inliner._block(self, ctx, out, taken, origin, stack)
             # single-expression helpers substituted by the expression inliner may have brought further nested helper calls
             again = []
